@@ -26,7 +26,7 @@ ASSUMPTIONS = [
 ]
 REQUIRED_CLASSES = ["view-then-op", "empty-row", "unequal-rows", "single-row", "setitem", "concat", "compare-array", "split-join", "negative-index",
                     "empty-selection", "two-dimensional", "fancy-columns-then-ravel", "built-from-encoded-rows",
-                    "str-equal-of-two-ragged-arrays"]
+                    "str-equal-of-two-ragged-arrays", "numpy-array-function-on-flat-array"]
 BOUNDS = {"quick": "1500 programs of up to 12 steps for each of 4 encodings, lists of up to 6 strings of length up to 8",
           "thorough": "12000 programs of up to 30 steps per encoding, lists of up to 12 strings of length up to 20"}
 BUDGET_S = {"quick": 200, "thorough": 1500}
@@ -282,6 +282,34 @@ def run(case, on_step=None):
                     push(np.concatenate([R, reals[c2]]), M + models[c2], op)
                 elif name == "f_copy":
                     push(R.copy(), M, op)
+                elif name == "f_where":
+                    # np.where(mask, a, b) with b another text of the same length over the alphabet
+                    if L == 0:
+                        continue
+                    other_m = "".join(alphabet[(p_ * 3 + op["k"]) % len(alphabet)] for p_ in range(L))
+                    bits = [bool(op["bits"][k % len(op["bits"])]) for k in range(L)]
+                    push(np.where(np.array(bits, dtype=bool), R, bnp.as_encoded_array(other_m, enc)), "".join(a if b else o for a, o, b in zip(M, other_m, bits)), op)
+                elif name == "f_append":
+                    tail = "".join(alphabet[(k * 5 + op["k"]) % len(alphabet)] for k in range(1 + op["k"] % 4))
+                    push(np.append(R, bnp.as_encoded_array(tail, enc)), M + tail, op)
+                elif name == "f_insert":
+                    if L == 0:
+                        continue
+                    at = op["i"] % (L + 1)
+                    c = alphabet[op["k"] % len(alphabet)]
+                    push(np.insert(R, at, bnp.as_encoded_array(c, enc)), M[:at] + c + M[at:], op)
+                elif name == "f_full_like":
+                    c = alphabet[op["k"] % len(alphabet)]
+                    push(np.full_like(R, c), c * L, op)
+                elif name == "f_windows":
+                    w_ = 1 + op["k"] % 4
+                    if L < w_:
+                        continue
+                    win = np.lib.stride_tricks.sliding_window_view(R, w_)
+                    got_rows = [win[i_].to_string() for i_ in range(L - w_ + 1)]
+                    want_rows = [M[i_:i_ + w_] for i_ in range(L - w_ + 1)]
+                    if got_rows != want_rows or win.encoding != R.encoding:
+                        return [Failure("C07:result-differs:f_windows", {"op": op, "expected": want_rows[:8], "actual": got_rows[:8], "encoding_kept": win.encoding == R.encoding})]
                 elif name == "literal":
                     # build a flat array from a string literal, assign into it, build the same literal again:
                     # the two arrays are independent objects, as two np.array(list(text)) would be
@@ -388,6 +416,8 @@ def classify(case):
         cl.append("empty-selection")
     if "from_rows" in names:
         cl.append("built-from-encoded-rows")
+    if any(op["op"] in ("f_where", "f_append", "f_insert", "f_full_like", "f_windows") for op in prog):
+        cl.append("numpy-array-function-on-flat-array")
     if any(op["op"] == "str_equal" and op.get("other") == 3 for op in prog):
         cl.append("str-equal-of-two-ragged-arrays")
     if case.get("matrix"):
@@ -443,6 +473,11 @@ def op_strategy(with_matrix=False):
         st.builds(lambda s, t: {"op": "f_concat", "on": "flat", "src": s, "src2": t}, src, src),
         st.builds(lambda s: {"op": "f_copy", "on": "flat", "src": s}, src),
         st.builds(lambda s: {"op": "split", "on": "flat", "src": s}, src),
+        st.builds(lambda s, b, k: {"op": "f_where", "on": "flat", "src": s, "bits": b, "k": k}, src, bits, st.integers(0, 9)),
+        st.builds(lambda s, k: {"op": "f_append", "on": "flat", "src": s, "k": k}, src, st.integers(0, 30)),
+        st.builds(lambda s, i, k: {"op": "f_insert", "on": "flat", "src": s, "i": i, "k": k}, src, st.integers(0, 40), st.integers(0, 30)),
+        st.builds(lambda s, k: {"op": "f_full_like", "on": "flat", "src": s, "k": k}, src, st.integers(0, 30)),
+        st.builds(lambda s, k: {"op": "f_windows", "on": "flat", "src": s, "k": k}, src, st.integers(0, 30)),
         st.builds(lambda s, k, n, p: {"op": "literal", "on": "flat", "src": s, "k": k, "n": n, "p": p}, src, st.integers(0, 30), st.integers(0, 30), st.integers(0, 30)),
     ]
     matrix = [
